@@ -345,7 +345,7 @@ func (p *Prog) indexPkg(pk *packages.Package, main bool) {
 				switch {
 				case strings.HasPrefix(obj.Name(), "contract_"):
 					fi.Kind = "contract"
-				case strings.HasPrefix(obj.Name(), "lemma_"):
+				case strings.HasPrefix(obj.Name(), "lemma_"), strings.HasPrefix(obj.Name(), "Lemma_"):
 					fi.Kind = "lemma"
 				default:
 					fi.Kind = "spec"
